@@ -525,3 +525,39 @@ pub fn routing(run: &JobRun) -> Result<RoutingStats, String> {
     }
     Ok(stats)
 }
+
+/// C19 on running jobs: the replicas of the block every probe sits in are exactly those the
+/// declared replication prescribes for the layout (an independent model of the declaration).
+pub fn placement(g: &Groups, expected: &BTreeMap<u32, crate::spec::Repl>, cores: &[u64]) -> Result<u64, String> {
+    use crate::spec::Repl;
+    let mut seen: BTreeMap<u32, Vec<(u64, u64)>> = BTreeMap::new();
+    for (p, loc) in g.keys() {
+        seen.entry(*p).or_default().push((loc.host_id, loc.replica_id));
+    }
+    let mut checked = 0;
+    for (p, locs) in seen.iter_mut() {
+        let Some(r) = expected.get(p) else { continue };
+        locs.sort();
+        let mut exp: Vec<(u64, u64)> = Vec::new();
+        match r {
+            Repl::One => exp.push((0, 0)),
+            Repl::Host => (0..cores.len()).for_each(|h| exp.push((h as u64, 0))),
+            Repl::Unlimited => cores.iter().enumerate().for_each(|(h, c)| (0..*c).for_each(|i| exp.push((h as u64, i)))),
+            Repl::Limited(n) => {
+                let mut left = (*n).max(1) as u64;
+                for (h, c) in cores.iter().enumerate() {
+                    let k = left.min(*c);
+                    (0..k).for_each(|i| exp.push((h as u64, i)));
+                    left -= k;
+                }
+            }
+        }
+        checked += 1;
+        if *locs != exp {
+            return Err(format!(
+                "the block of probe {p} is declared {r:?}: on cores {cores:?} it must run on (host, replica) {exp:?}, it runs on {locs:?}"
+            ));
+        }
+    }
+    Ok(checked)
+}
